@@ -713,7 +713,8 @@ InitCodes == {<<>>, <<0>>, <<254>>, Ret1,
               P(Sender) \o <<255>>,                        \* SELFDESTRUCT(sender)
               <<96, 0, 96, 0, 253>>,                       \* REVERT(0, 0)
               P(239) \o P(0) \o <<83>> \o Ret1,            \* code starting with 0xEF
-              P(91) \o P(0) \o <<83>> \o P(2) \o P(0) \o <<83>> \o <<96, 2, 96, 0, 243>>}  \* code = JUMPDEST(0x5b) 0x02...
+              P(91) \o P(0) \o <<83>> \o P(2) \o P(0) \o <<83>> \o <<96, 2, 96, 0, 243>>,  \* code = JUMPDEST(0x5b) 0x02...
+              <<96, 64, 96, 0, 243>>}                      \* RETURN(0, 64): 64 zero bytes, code deposit 12800 gas (often unaffordable)
 
 After == {<<80>>, P(3) \o <<85>>}                          \* POP the result, or SSTORE it to slot 3
 
@@ -864,7 +865,7 @@ AuthLists == {<<>>, <<>>, <<>>} \cup
     {<<Auth(171, c, 1), Auth(172, d, 0)>> : c \in Contracts, d \in Contracts} \cup
     {<<Auth(171, c, 1), Auth(171, 0, 2)>> : c \in Contracts} \cup
     {<<Auth(c, d, 1)>> : c \in Contracts, d \in Contracts}
-TxInit == {Ret1, P(2) \o P(1) \o <<85>> \o Ret1, <<254>>}
+TxInit == {Ret1, P(2) \o P(1) \o <<85>> \o Ret1, <<254>>, <<96, 64, 96, 0, 243>>}
 AccessLists == {<<>>} \cup (IF Has(BERLIN) THEN {<<[addr |-> c, keys |-> <<0>>]>> : c \in Contracts} ELSE {})
 ChooseTx == m.ph = "tx" /\ Len(m.res) < MaxTx /\
     \E to \in TxTargets, value \in (IF TxVariety THEN {0, 1} ELSE TxValues), gas \in TxGas, price \in GasPrices,
